@@ -18,7 +18,7 @@ na_reasons={
 "C18":"Exactness of a pure analysis pass.",
 "C19":"The lint report is a pure function of the tree; its run-to-run determinism is inside C10's oracle and its traversal substrate inside C16, but the rule itself is not decided by either.",
 }
-pending={k:"Designed as claimed (DESIGN.md), but its check is not built yet in this commit; listed here until the check is registered." for k in ["C20"]}
+pending={}
 for k,v in pending.items(): na_reasons.setdefault(k,v)
 claimed=json.load(open('/verif/tools/manifest_checks.json'))
 ids=[c['property_id'] for c in claimed]
